@@ -44,9 +44,9 @@ def cases(rng, tier, Case):
             res.append(Case("hist 100 TR %s" % script, "history", {"cfg": cfg, "nest": 100, "docs": [hx(d) for d in docs]},
                             compare=first in COLLIDERS))
     # a parser that is reconfigured after it has parsed: same result as a fresh parser given the same add/remove calls
-    RECONF = ["+s", "+3", "+4", "+8", "+x", "+S", "-m", "-M", "-a", "-x", "-l", "-E", "-3", "-b", "-s", "+1", "-H", "-p;+p", "+m", "-t"]
+    RECONF = ["+s", "+3", "+4", "+8", "+x", "+S", "-m", "-M", "-a", "-x", "-l", "-E", "-3", "-b", "-s", "+1", "-H", "-p;+p", "+m", "-t", "-Z", "-Z", "+g", "+G", "-1", "-2"]
     for _ in range(n):
-        cfg = rng.choice(["C", "C3", "C34", "CW3", "C8", "nebp3", mdgen.gen_cfg(rng) + "3"])
+        cfg = rng.choice(["C", "C3", "C34", "CW3", "C8", "nebp3", "CgG", "gCG3", "Cg", mdgen.gen_cfg(rng) + "3"])
         steps = ["+" + cfg]
         conf = ["+" + cfg]
         for _k in range(rng.choice([1, 2, 3])):
@@ -55,7 +55,7 @@ def cases(rng, tier, Case):
             r_ = rng.choice(RECONF)
             steps.append(r_)
             conf.append(r_)
-        last = hx(PROBE + "\n\nxx ~~s~~ % p % <b>q</b> " + rng.choice(LEAKY))
+        last = hx(PROBE + "\n\nxx ~~s~~ % p % <b>q</b> " + rng.choice(LEAKY) + "\n\n@@@\n\n- i\n@@@\n")
         res.append(Case("hist 100 TR %s" % ";".join(steps + ["P" + last]), "reconf", {"fresh": "hist 100 TR %s" % ";".join(conf + ["P" + last])}))
     for _ in range(n):
         cfg = mdgen.gen_cfg(rng) + rng.choice(["", "3", "34"])
